@@ -109,6 +109,17 @@ theorem send_loop_refines : type_of% @PSO.Bridge.sendRun_refines := @PSO.Bridge.
 theorem send_loop_cut_refines : type_of% @PSO.Bridge.sendRun_cut_refines := @PSO.Bridge.sendRun_cut_refines
 theorem send_loop_probe_refines : type_of% @PSO.Bridge.sendRun_probe_refines := @PSO.Bridge.sendRun_probe_refines
 
+/-- A queue item accepted by a leader (`leaderDispatch`, batched or unbatched mode) is the model's `clientAppend`
+of that command; a refused item or a non-leader leaves the abstract node unchanged. -/
+theorem leader_dispatch_refines : type_of% @PSO.Bridge.leaderDispatch_refines := @PSO.Bridge.leaderDispatch_refines
+theorem dispatch_idle_unchanged : type_of% @PSO.Bridge.dispatch_idle_abs := @PSO.Bridge.dispatch_idle_abs
+
+/-- The follower side of `append_entries` (regular message, chunk burst) is the model's `recvAppend`; a reply
+`next_node_idx` with success is the model's `ack`, reset replies are no model message. -/
+theorem follower_append_refines : type_of% @PSO.Bridge.appendEntries_refines := @PSO.Bridge.appendEntries_refines
+theorem follower_chunk_refines : type_of% @PSO.Bridge.appendEntries_chunk_refines := @PSO.Bridge.appendEntries_chunk_refines
+theorem follower_finish_refines : type_of% @PSO.Bridge.appendEntries_finish_refines := @PSO.Bridge.appendEntries_finish_refines
+
 /-- Non-vacuity: in the demo run nodes 0 and 1 report positions 0..2 committed, node 2 nothing. -/
 example : ∃ s, Reachable 3 s ∧ (s.nodes 0).commit = 2 ∧ (s.nodes 1).commit = 2 ∧ (s.nodes 2).commit = 0 := by
   obtain ⟨s, _, hr, hs⟩ := demo_reachable
